@@ -241,6 +241,70 @@ func C29(c *Ctx) {
 		}
 		c.Decide(he, r2, key(fn, "single-expiry-option"), fn.Pos(), 1, "a second expiry option is a syntax error", "the duplicate-expiry check (hasExpire) is gone")
 		c.Decide(pos, r2, key(fn, "expiry>0"), fn.Pos(), 1, "non-positive expiry is rejected", "the `num <= 0` rejection of expiry arguments is gone")
+		// relative expiry: the stored second must be strictly after `now`, because the engine
+		// treats expiresAt <= now as expired (isDeletedOrExpired / raftBackend): every comparison of
+		// now.Add(ttl).Unix() with now.Unix() uses <= (bump to the next second on equality)
+		relCmp, relBad := 0, ""
+		AllInstrs(fn, false, func(in ssa.Instruction) {
+			bo, ok := in.(*ssa.BinOp)
+			if !ok {
+				return
+			}
+			xa, xn := unixOf(bo.X)
+			ya, yn := unixOf(bo.Y)
+			switch {
+			case xa && yn: // expire OP now
+				relCmp++
+				if bo.Op != token.LEQ {
+					relBad = "expireAt " + bo.Op.String() + " now"
+				}
+			case xn && ya: // now OP expire
+				relCmp++
+				if bo.Op != token.GEQ {
+					relBad = "now " + bo.Op.String() + " expireAt"
+				}
+			}
+		})
+		c.Decide(relCmp >= 1 && relBad == "", r2, key(fn, "relative-expiry>now"), fn.Pos(), relCmp+1, fmt.Sprintf("%d relative-expiry guard(s), all bump when the truncated second is <= now", relCmp),
+			fmt.Sprintf("a relative expiry (EX/PX) that truncates to the current second is stored as-is (guard is `%s`, %d guard(s) found): the engine treats expiresAt <= now as expired, so the key is gone when SET replies OK", relBad, relCmp))
+		// every now.Add(ttl).Unix() that is not the one-second bump itself is covered by such a guard
+		unguarded := 0
+		AllInstrs(fn, false, func(in ssa.Instruction) {
+			call, ok := in.(*ssa.Call)
+			if !ok || !Named("(time.Time).Unix")(call.Common()) {
+				return
+			}
+			isAdd, _ := unixOf(call)
+			if !isAdd {
+				return
+			}
+			add := call.Call.Args[0].(*ssa.Call)
+			if k, ok := ConstInt(add.Call.Args[1]); ok && k == int64(1000000000) {
+				return // the bump itself
+			}
+			cmp := false
+			var refs func(v ssa.Value, d int)
+			refs = func(v ssa.Value, d int) {
+				if d > 3 || v.Referrers() == nil {
+					return
+				}
+				for _, r := range *v.Referrers() {
+					switch x := r.(type) {
+					case *ssa.BinOp:
+						if x.Op == token.LEQ || x.Op == token.GEQ || x.Op == token.LSS || x.Op == token.GTR {
+							cmp = true
+						}
+					case *ssa.Convert:
+						refs(x, d+1)
+					}
+				}
+			}
+			refs(call, 0)
+			if !cmp {
+				unguarded++
+			}
+		})
+		c.Decide(unguarded == 0, r2, key(fn, "relative-expiry-guarded"), fn.Pos(), 1, "every relative expiry computation is compared with now", fmt.Sprintf("%d relative expiry computation(s) are never compared with now", unguarded))
 		// setArgs passes nx/xx
 		for i, s := range need(c, r2, fn, false, "backend.Set", Named("("+redisPkg+".redisBackend).Set"), 1) {
 			_ = i
@@ -637,4 +701,33 @@ func firstLine(s string) string {
 		return s[:i]
 	}
 	return s
+}
+
+// unixOf classifies v (through conversions) as t.Add(d).Unix() (isAdd) or time.Now().Unix() /
+// now.Unix() for a plain time value (isNow).
+func unixOf(v ssa.Value) (isAdd, isNow bool) {
+	call, ok := Unwrap(v).(*ssa.Call)
+	if !ok || !Named("(time.Time).Unix")(call.Common()) || len(call.Call.Args) == 0 {
+		return false, false
+	}
+	recv := call.Call.Args[0]
+	if u, ok := recv.(*ssa.UnOp); ok && u.Op == token.MUL {
+		// spilled local: look at the single store
+		if al, ok := u.X.(*ssa.Alloc); ok {
+			for _, r := range *al.Referrers() {
+				if st, ok := r.(*ssa.Store); ok && st.Addr == al {
+					recv = st.Val
+				}
+			}
+		}
+	}
+	if rc, ok := recv.(*ssa.Call); ok {
+		if Named("(time.Time).Add")(rc.Common()) {
+			return true, false
+		}
+		if Named("time.Now")(rc.Common()) {
+			return false, true
+		}
+	}
+	return false, false
 }
